@@ -54,12 +54,11 @@ Theorem C16_never_panics : forall isLetter isNumber resolves body_ok resp_ok mid
 Proof. exact add_binding_benign. Qed.
 Print Assumptions C16_never_panics.
 
-(* registering a method panics only when the method's own implicit /Service/Method rule is refused
-   (appendHandler's panic("bug: ...")); never because of an annotation or a service-config rule *)
+(* registering a method never panics and never runs out of fuel, whatever its annotation, the
+   service-config rules selected for it and the trie it meets -- also when another method's rule
+   already occupies its implicit /Service/Method path (that used to be panic("bug: ..."), finding R10) *)
 Theorem C16_method_registration_total : forall isLetter isNumber resolves body_ok resp_ok root d,
-  MatchProofs.benign (append_handler resolves body_ok resp_ok isLetter isNumber root d) \/
-  (append_handler resolves body_ok resp_ok isLetter isNumber root d = Panic PExplicit /\
-   exists e, add_rule resolves body_ok resp_ok isLetter isNumber (d_id d) root (implicit_rule (d_id d)) = Err e).
+  MatchProofs.benign (append_handler resolves body_ok resp_ok isLetter isNumber root d).
 Proof. exact append_handler_total. Qed.
 Print Assumptions C16_method_registration_total.
 
@@ -76,9 +75,9 @@ Theorem C16_reject_unknown_field : forall isLetter isNumber resolves body_ok res
 Proof. exact reject_unresolved. Qed.
 Print Assumptions C16_reject_unknown_field.
 
+(* (no exception for a pattern the method has already bound: finding R11) *)
 Theorem C16_reject_bad_selector : forall isLetter isNumber resolves body_ok resp_ok root mid b es vfs,
   compiled isLetter isNumber resolves mid b es vfs ->
-  (if str_eqb (b_verb b) star_verb then n_mall (leaf_of root es) = None else assoc (b_verb b) (n_meths (leaf_of root es)) = None) ->
   (match b_body b with BField p => resolves mid p && body_ok mid p | _ => true end) &&
   (match b_resp b with [] => true | p => resp_ok mid p end) = false ->
   exists e, add_binding resolves body_ok resp_ok isLetter isNumber mid root b = Err e.
